@@ -995,6 +995,9 @@ impl SA {
         });
         self.journal.push(format!("h{}", body.uid));
         let steps = body.steps;
+        if body.flags & F_TRPANIC != 0 {
+            TR_PANIC.lock().unwrap_or_else(|e| e.into_inner()).insert((r.identity().id, body.uid));
+        }
         self.run_steps(HookKind::Handler, &steps, Me::Strong(r), body.uid).await;
         (body.uid * 1000 + self.n, t0)
     }
@@ -1014,6 +1017,9 @@ impl SA {
         });
     }
 }
+
+/// (actor id, uid) of told messages whose on_tell_result is scripted to panic
+static TR_PANIC: std::sync::Mutex<std::collections::BTreeSet<(u64, u64)>> = std::sync::Mutex::new(std::collections::BTreeSet::new());
 
 fn tell_result(rep: Rep, r: &ActorRef<SA>) {
     let id = r.identity().id;
@@ -1206,7 +1212,15 @@ impl Message<MU> for SA {
         base
     }
     fn on_tell_result(res: &u64, r: &ActorRef<Self>) {
-        tell_result(Rep::U(*res), r)
+        tell_result(Rep::U(*res), r);
+        let id = r.identity().id;
+        let uid = *res / 1000;
+        if TR_PANIC.lock().unwrap_or_else(|e| e.into_inner()).remove(&(id, uid)) {
+            if let Some((log, idx)) = reg_get(id) {
+                log.push(K::HPanic { actor: idx, uid });
+                panic!("scripted Handler panic actor {idx} (raised by on_tell_result)");
+            }
+        }
     }
 }
 impl Message<MS> for SA {
